@@ -68,6 +68,8 @@ func GenListCase(level int) func(t *rapid.T) ListCase {
 			r := ReadSpec{Extra: rapid.OneOf(rapid.SampledFrom([]int{0, 0, 1, 2}), rapid.IntRange(0, 120), rapid.IntRange(0, 3000), rapid.Just(70000)).Draw(t, "extra")}
 			if rapid.IntRange(0, 7).Draw(t, "wrongp") == 0 {
 				r.Wrong = rapid.SampledFrom([]int64{1, -1, 13, 1 << 20, -1 << 20}).Draw(t, "wrong")
+			} else if rapid.IntRange(0, 7).Draw(t, "zerop") == 0 {
+				r.Zero = true
 			}
 			return r
 		}), 1, 6).Draw(t, "reads")
@@ -191,6 +193,13 @@ func checkReads(c ListCase, encs [][]byte, maxEnc int, rd reader) harn.Result {
 				return harn.Fail("read %d at offset %d (running offset is %d) was accepted and returned %d bytes", ri, offset+spec.Wrong, offset, len(got))
 			}
 			res.Classes = append(res.Classes, "wrong_offset_rejected")
+		}
+		if spec.Zero && offset != 0 {
+			got, err := rd(count, 0)
+			if err == nil {
+				return harn.Fail("read %d at offset 0 (running offset is %d) was accepted and returned %d bytes", ri, offset, len(got))
+			}
+			res.Classes = append(res.Classes, "rewind_rejected")
 		}
 		got, err := rd(count, offset)
 		if err != nil {
